@@ -75,7 +75,7 @@ function genObj(rng, d, sc, allowIndex = true) {
 }
 function genTpl(rng) {
   const n = 1 + rng.below(3), items = [];
-  for (let i = 0; i < n; i++) items.push(rng.pick([A("str"), A("num"), A("bool"), [A("lit"), "a"], [A("lit"), "-"], [A("lit"), "x.y"], [A("lit"), "/u/"], [A("lit"), "s://"], [A("oneof"), [A("lit"), "p"], [A("lit"), "q"]], [A("oneof"), [A("lit"), ""], [A("lit"), "-"]]]));
+  for (let i = 0; i < n; i++) items.push(rng.pick([A("str"), A("num"), A("bool"), [A("lit"), "a"], [A("lit"), "-"], [A("lit"), "x.y"], [A("lit"), "/u/"], [A("lit"), "s://"], [A("lit"), "C:\\"], [A("lit"), "a`"], [A("lit"), "$"], [A("oneof"), [A("lit"), "p"], [A("lit"), "q"]], [A("oneof"), [A("lit"), ""], [A("lit"), "-"]]]));
   // adjacent literal quasis are one quasi in source; merge them so the TsCore term is canonical
   const merged = [];
   for (const it of items) { const last = merged[merged.length - 1]; if (head(it) === "lit" && last && head(last) === "lit") last[1] += it[1]; else merged.push(head(it) === "lit" ? [A("lit"), it[1]] : it); }
